@@ -66,7 +66,7 @@ func (s *SubscriptionService) CreateSubscription(sc *uasc.SecureChannel, r ua.Re
 	sub.Session = s.srv.Session(r.Header())
 	sub.Channel = sc
 	sub.ID = newsubid
-	sub.RevisedPublishingInterval = req.RequestedPublishingInterval
+	sub.RevisedPublishingInterval = revisePublishingInterval(req.RequestedPublishingInterval)
 	sub.RevisedLifetimeCount = req.RequestedLifetimeCount
 	sub.RevisedMaxKeepAliveCount = req.RequestedMaxKeepAliveCount
 
@@ -84,7 +84,7 @@ func (s *SubscriptionService) CreateSubscription(sc *uasc.SecureChannel, r ua.Re
 			AdditionalHeader:   ua.NewExtensionObject(nil),
 		},
 		SubscriptionID:            uint32(newsubid),
-		RevisedPublishingInterval: req.RequestedPublishingInterval,
+		RevisedPublishingInterval: sub.RevisedPublishingInterval,
 		RevisedLifetimeCount:      req.RequestedLifetimeCount,
 		RevisedMaxKeepAliveCount:  req.RequestedMaxKeepAliveCount,
 	}
@@ -92,6 +92,27 @@ func (s *SubscriptionService) CreateSubscription(sc *uasc.SecureChannel, r ua.Re
 }
 
 // https://reference.opcfoundation.org/Core/Part4/v105/docs/5.13.3
+const (
+	// minPublishingInterval and maxPublishingInterval are the limits
+	// in milliseconds for the publishing interval of a subscription.
+	minPublishingInterval = 1
+	maxPublishingInterval = 24 * 60 * 60 * 1000
+)
+
+// revisePublishingInterval returns the publishing interval in milliseconds the
+// server uses for a requested value. Zero, negative and NaN values select the
+// fastest supported interval (Part 4, 5.13.2).
+func revisePublishingInterval(ms float64) float64 {
+	switch {
+	case !(ms >= minPublishingInterval): // also true for NaN
+		return minPublishingInterval
+	case ms > maxPublishingInterval:
+		return maxPublishingInterval
+	default:
+		return ms
+	}
+}
+
 func (s *SubscriptionService) ModifySubscription(sc *uasc.SecureChannel, r ua.Request, reqID uint32) (ua.Response, error) {
 	if s.srv.cfg.logger != nil {
 		s.srv.cfg.logger.Debug("Handling %T", r)
